@@ -27,6 +27,10 @@ const SCENARIOS: &[Scenario] = &[
     Scenario { name: "nested-hits", grammar: "a = { \"x\" } r = { a ~ a }", input: "xx", rule: "r", breakpoints: &["a", "r"] },
     Scenario { name: "no-breakpoints", grammar: "a = { \"x\" } r = { a ~ a }", input: "xx", rule: "r", breakpoints: &[] },
     Scenario { name: "failing-parse", grammar: "a = { \"x\" } r = { a ~ a }", input: "xy", rule: "r", breakpoints: &["a"] },
+    // a stop at the *last* rule entry, and an abort that the grammar swallows (`*`): after a restart
+    // request the old parse still ends in Ok
+    Scenario { name: "single-hit", grammar: "a = { \"x\" } r = _{ a ~ \"y\"? }", input: "x", rule: "r", breakpoints: &["a"] },
+    Scenario { name: "hit-in-repetition", grammar: "a = { \"x\" } r = { a ~ a* }", input: "xx", rule: "r", breakpoints: &["a"] },
     Scenario { name: "multibyte", grammar: "a = { \"é\" } r = { a ~ \"\\n\" ~ a ~ a }", input: "é\néé", rule: "r", breakpoints: &["a"] },
 ];
 
